@@ -199,6 +199,9 @@ func vfC05Gen(rt *rapid.T) vfC05Case {
 	switch c.Gate {
 	case vfC05GBrokerSub, vfC05GPresence, vfC05GHistory, vfC05GMapState, vfC05GMapStream:
 		c.FailAfter = rapid.IntRange(0, 3).Draw(rt, "failAfter") == 0
+		if c.Op == vfC05OpMapSub && c.Gate != vfC05GPresence {
+			c.FailAfter = rapid.Bool().Draw(rt, "failAfterMap")
+		}
 	}
 	c.Pre = rapid.IntRange(0, 7).Draw(rt, "pre")
 	c.GateCh = rapid.IntRange(0, 2).Draw(rt, "gateCh")
@@ -339,7 +342,11 @@ func (b *vfC05MapBroker) ReadState(ctx context.Context, ch string, opts MapReadS
 }
 
 func (b *vfC05MapBroker) ReadStream(ctx context.Context, ch string, opts MapReadStreamOptions) (MapStreamResult, error) {
-	if err := b.pass("map_readstream:" + ch); err != nil {
+	name := "map_readstream:" + ch
+	if opts.Filter.Limit == 0 && opts.Filter.Since == nil {
+		name = "map_streampos:" + ch // position-only read of the state phase (before the hub registration)
+	}
+	if err := b.pass(name); err != nil {
 		return MapStreamResult{}, err
 	}
 	return b.MapBroker.ReadStream(ctx, ch, opts)
